@@ -105,7 +105,7 @@ def rename_refs(sc, old, new):
 
 MUTATIONS = ["drop_state_field", "drop_scope_field", "rename_state", "retarget", "retag", "wrong_type", "dup_names",
              "empty_object", "empty_branches", "drop_state", "junk_member", "end_false", "catcher", "timestamp", "two",
-             "numeric_field", "dangling_all"]
+             "numeric_field", "dangling_all", "empty_startat"]
 
 
 def mutate(rng, m, op=None):
@@ -234,6 +234,25 @@ def mutate(rng, m, op=None):
             sts[name] = {"Type": "Parallel", "End": True, "Branches": [
                 {"StartAt": "DA", "States": {"DA": {"Type": "Pass", "Next": "Nowhere1"}}},
                 {"StartAt": "DB", "States": {"DB": {"Type": "Pass", "Next": "Nowhere2"}}}]}
+    elif op == "empty_startat":
+        # a scope whose StartAt is the empty string (with or without a state of that name): the engine takes an event whose
+        # state name is empty for the start of a new execution
+        fans = [s_ for s_ in sts.values() if isinstance(s_, dict) and (isinstance(s_.get("Branches"), list) and s_["Branches"]
+                                                                        or "Iterator" in s_ or "ItemProcessor" in s_)]
+        if fans and rng.random() < 0.85:
+            f = rng.choice(fans)
+            subs = [b_ for b_ in (list(f.get("Branches") or []) + [f[k] for k in ("Iterator", "ItemProcessor") if k in f]) if isinstance(b_, dict)]
+            for b_ in (subs if rng.random() < 0.3 else subs[:1] if rng.random() < 0.5 else subs[-1:]):
+                old = b_.get("StartAt")
+                b_["StartAt"] = ""
+                if rng.random() < 0.5 and isinstance(b_.get("States"), dict) and old in b_["States"]:
+                    b_["States"] = {("" if k == old else k): v for k, v in b_["States"].items()}
+        elif fans or depth > 0 or rng.random() < 0.5:
+            sts[name] = {"Type": "Parallel", "End": True, "Branches": [
+                {"StartAt": "EA", "States": {"EA": {"Type": "Pass", "End": True}}},
+                {"StartAt": "", "States": {"EB": {"Type": "Pass", "End": True}}}]}
+        else:
+            m["StartAt"] = ""
     elif op == "junk_member":
         sts[rng.choice(["J", "", name + "j"])] = rng.choice(JUNK)
     elif op == "end_false":
@@ -365,6 +384,9 @@ def engine_case(definition=None, data=None, plans=None, raw=None, max_steps=1500
         res["poison_terminal_notifications"] = sum(
             1 for n in s.notifications if ea and n["body"] and n["body"].get("detail", {}).get("executionArn") == ea
             and n["body"]["detail"].get("status") != "RUNNING")
+        res["poison_running_notifications"] = sum(
+            1 for n in s.notifications if ea and n["body"] and n["body"].get("detail", {}).get("executionArn") == ea
+            and n["body"]["detail"].get("status") == "RUNNING")
         rec = s.record(ea) if ea else None
         res["cause"] = (rec or {}).get("cause")
         res["healthy"] = view(s, eh)
@@ -400,6 +422,10 @@ def judge(res, storable=True):
     hist = (res.get("poison") or {}).get("history") or []
     if sum(1 for t in hist if t in ("ExecutionFailed", "ExecutionSucceeded")) > 1 or res.get("poison_terminal_notifications", 0) > 1:
         bad.append("its own execution ends more than once")
+    if sum(1 for t in hist if t == "ExecutionStarted") > 1 or res.get("poison_running_notifications", 0) > 1:
+        # (an event whose state name is empty is taken for the start of a new execution: a transition or a branch's
+        # StartAt that is the empty string must be refused, not followed)
+        bad.append("its own execution is started more than once")
     if res.get("waiting"):
         pass
     elif not res["quiescent"]:
